@@ -19,14 +19,17 @@
 //!               simstart (handler, key = stage) | simend (handler, key = 0)
 //!        sched: schedule_in(msg(id), delay) on the emitting module
 //!        send : send / send_in over the gate to module <dst> (dst = own module => schedule_in)
-//!        task=<extra> (handler hooks only): spawn a tokio task that sleeps extra+1 ns and then emits
+//!        task=<extra> (handler hooks only): spawn a tokio task that sleeps extra+1 ns and then emits;
+//!        with fin=panic the task panics instead of emitting, with fin=hang it then awaits for ever;
+//!        join=must|try registers the task's handle with current().join / current().try_join
 //!   down <who> <hook> <n> <d|->                        on the n-th call (0-based, counted per instance over the whole run)
 //!        of that hook request a shutdown: `-` = current().shutdown(), d = current().shutdow_and_restart_in(d ns);
 //!        who/hook = <E> start|inc|end  or  H:<M> msg|simstart
 //!   init <M> <id> <time>                               message injected before the run
 //! Transcript: the same lines, then `obs <M> <who> <hook> <msgid|-> <ns>` per logged call
 //! (`obs <M> <who> down <restart ns|-> <ns>` for a shutdown request, right after the call that made it), then
-//! `res ok|err=<kind> time=<ns>`.
+//! `res ok|err=<kind> time=<ns>`; a run that ends with join errors answers
+//! `res err=join:<M>/<NotFinished|Paniced|Tokio>,... time=0` (errors in the order `run()` reports them).
 use crate::rng::Rng;
 use crate::util::{cases, guarded};
 use des::net::processing::{ProcessingElement, ProcessingStack};
@@ -51,6 +54,8 @@ struct Emit {
     delay: u64,
     id: u16,
     task: Option<u64>,
+    join: u8, // 0 none, 1 must, 2 try
+    fin: u8,  // 0 emit, 1 panic, 2 hang
 }
 
 #[derive(Clone, Debug, Default)]
@@ -161,12 +166,25 @@ fn parse(body: &[String]) -> Script {
                     continue; // unknown destination: the emission does not exist
                 }
                 let mut task = None;
+                let mut join = 0u8;
+                let mut fin = 0u8;
                 for kv in rest {
                     if let Some(v) = kv.strip_prefix("task=") {
                         task = v.parse::<u64>().ok();
                     }
+                    match *kv {
+                        "join=must" => join = 1,
+                        "join=try" => join = 2,
+                        "fin=panic" => fin = 1,
+                        "fin=hang" => fin = 2,
+                        _ => {}
+                    }
                 }
-                let em = Emit { send, dst: dst.to_string(), delay, id, task };
+                if task.is_none() {
+                    join = 0;
+                    fin = 0;
+                }
+                let em = Emit { send, dst: dst.to_string(), delay, id, task, join, fin };
                 if let Some(m) = who.strip_prefix("H:") {
                     let Some(ms) = sc.mods.iter_mut().find(|x| x.tag == m) else { continue };
                     match *hook {
@@ -176,7 +194,7 @@ fn parse(body: &[String]) -> Script {
                         _ => {}
                     }
                 } else if let Some(es) = find_elem(&mut sc, who) {
-                    let em = Emit { task: None, ..em };
+                    let em = Emit { task: None, join: 0, fin: 0, ..em };
                     match *hook {
                         "start" => es.start.entry(key).or_default().push(em),
                         "inc" => es.inc.entry(key).or_default().push(em),
@@ -268,11 +286,20 @@ fn emit_all(own: &str, es: Option<&Vec<Emit>>) {
             None => do_emit(own, e),
             Some(extra) => {
                 let own = own.to_string();
-                let e = e.clone();
-                tokio::spawn(async move {
+                let e2 = e.clone();
+                let handle = tokio::spawn(async move {
                     des::time::sleep(Duration::from_nanos(extra + 1)).await;
-                    do_emit(&own, &e);
+                    match e2.fin {
+                        1 => panic!("c14: scripted task panic"),
+                        2 => std::future::pending::<()>().await,
+                        _ => do_emit(&own, &e2),
+                    }
                 });
+                match e.join {
+                    1 => current().join(handle),
+                    2 => current().try_join(handle),
+                    _ => drop(handle),
+                }
             }
         }
     }
@@ -415,7 +442,26 @@ fn simulate(sc: &Script) -> Result<u128, String> {
     }
     match rt.run() {
         Ok((_, time, _)) => Ok(time.as_nanos()),
-        Err(e) => Err(format!("{e:?}").chars().filter(|c| !c.is_whitespace()).take(80).collect()),
+        Err(e) => {
+            // join errors display as "<path>: <Kind>[(..)]"; anything else keeps its debug text
+            let mut parts = Vec::new();
+            let mut all_join = !e.is_empty();
+            for err in e.iter() {
+                let txt = format!("{err}");
+                match txt.split_once(": ") {
+                    Some((path, kind)) if ["NotFinished", "Paniced", "Tokio"].iter().any(|k| kind.starts_with(k)) => {
+                        let kind: String = kind.chars().take_while(|c| c.is_alphanumeric()).collect();
+                        parts.push(format!("{path}/{kind}"));
+                    }
+                    _ => all_join = false,
+                }
+            }
+            if all_join {
+                Err(format!("join:{}", parts.join(",")))
+            } else {
+                Err(format!("runtime:{}", format!("{e:?}").chars().filter(|c| !c.is_whitespace()).take(80).collect::<String>()))
+            }
+        }
     }
 }
 
@@ -434,7 +480,7 @@ pub fn exec(input: &str) -> String {
         }
         match res {
             Ok(Ok(t)) => writeln!(out, "res ok time={t}").unwrap(),
-            Ok(Err(e)) => writeln!(out, "res err=runtime:{e} time=0").unwrap(),
+            Ok(Err(e)) => writeln!(out, "res err={e} time=0").unwrap(),
             Err(p) => {
                 let p: String = p.chars().filter(|c| !c.is_whitespace()).take(80).collect();
                 writeln!(out, "res err=panic:{p} time=0").unwrap()
@@ -446,6 +492,14 @@ pub fn exec(input: &str) -> String {
 }
 
 // ------------------------------------------------------------------------------------------ generator
+
+/// joined tasks: handles registered with join / try_join, tasks that finish, panic or hang (so that the
+/// simulation may end with NotFinished / Paniced / — after a shutdown — Tokio join errors)
+fn task_opts(r: &mut Rng) -> String {
+    let join = *r.pick(&["", "", "", " join=must", " join=must", " join=try"]);
+    let fin = *r.pick(&["", "", "", "", "", " fin=panic", " fin=hang"]);
+    format!("{join}{fin}")
+}
 
 const DELAYS: [u64; 6] = [0, 0, 1, 2, 5, 1000];
 
@@ -530,7 +584,7 @@ pub fn gen(seed: u64, count: usize, thorough: bool) -> String {
                 }
                 _ => r.range(1, nid),
             };
-            let task = if handler && hook != "simend" && r.chance(2, 5) { format!(" task={}", r.pick(&[0u64, 0, 1, 4, 999])) } else { String::new() };
+            let task = if handler && hook != "simend" && r.chance(2, 5) { format!(" task={}{}", r.pick(&[0u64, 0, 1, 4, 999]), task_opts(&mut r)) } else { String::new() };
             writeln!(out, "emit {who} {hook} {key} {kind} {dst} {delay} {id}{task}").unwrap();
             last = Some((who, hook, key));
         }
@@ -567,7 +621,7 @@ pub fn gen(seed: u64, count: usize, thorough: bool) -> String {
                 let kind = if r.chance(1, 2) { "send" } else { "sched" };
                 let dst = r.pick(&mods).clone();
                 let delay = *r.pick(&[1u64, 2, 3, 4, 6, 8, 11]);
-                let task = if handler && r.chance(1, 3) { format!(" task={}", r.pick(&[0u64, 2, 6])) } else { String::new() };
+                let task = if handler && r.chance(1, 3) { format!(" task={}{}", r.pick(&[0u64, 2, 6]), task_opts(&mut r)) } else { String::new() };
                 writeln!(out, "emit {who} {hook} {key} {kind} {dst} {delay} {}{task}", r.range(1, nid)).unwrap();
             }
             for _ in 0..r.range(2, 6) {
